@@ -155,6 +155,47 @@ Theorem C09_history_equal_iff_denote : forall ha hb a b,
 Proof. exact history_equal_iff_denote. Qed.
 Print Assumptions C09_history_equal_iff_denote.
 
+(* ---- deep copy with a caller-supplied json_c_shallow_copy_fn ---- *)
+(* the callback's answers (1 / 2 / -1) and the set of source nodes carrying application
+   userdata are ORACLES: arbitrary functions of the history of calls and of the present call.
+   For every oracle: a successful copy is the source tree itself (complete, same retained
+   texts and int representations), hence equal to it iff NaN-free, and the callback was
+   called exactly once per node ... *)
+Theorem C09_deep_copy_cb_same : forall env src p k i d h c h',
+  jv_wf src -> deep_copy_cb env src p k i d h = (Some c, h') -> c = src.
+Proof. exact deep_copy_cb_same. Qed.
+Print Assumptions C09_deep_copy_cb_same.
+
+Theorem C09_deep_copy_cb_equal : forall env src p k i d h c h',
+  jv_wf src -> deep_copy_cb env src p k i d h = (Some c, h') ->
+  jv_equal src c = nan_free src /\ jv_equal c src = nan_free src /\ denote c = denote src.
+Proof. exact deep_copy_cb_equal. Qed.
+Print Assumptions C09_deep_copy_cb_equal.
+
+Theorem C09_deep_copy_cb_calls : forall env src p k i d h c h',
+  jv_wf src -> deep_copy_cb env src p k i d h = (Some c, h') -> zlen h' = zlen h + node_count src.
+Proof. exact deep_copy_cb_calls. Qed.
+Print Assumptions C09_deep_copy_cb_calls.
+
+(* ... and for every oracle that never fails (never -1; 2 wherever the node carries
+   application userdata) the copy succeeds *)
+Theorem C09_deep_copy_cb_never_fails : forall env src, cb_never_fails env -> jv_wf src -> src <> JNull ->
+  exists h', deep_copy_cb_root env src = (Some src, h') /\ zlen h' = node_count src /\
+             jv_equal src src = nan_free src.
+Proof. exact deep_copy_cb_never_fails. Qed.
+Print Assumptions C09_deep_copy_cb_never_fails.
+
+Theorem C09_deep_copy_cb_default : forall src, jv_wf src -> src <> JNull ->
+  fst (deep_copy_cb_root cb_default src) = deep_copy_root src.
+Proof. exact deep_copy_cb_default. Qed.
+Print Assumptions C09_deep_copy_cb_default.
+
+Theorem C09_deep_copy_cb_error : forall env src p k i d h,
+  src <> JNull -> cb_answer env h (mk_call src p k i d) = CbError ->
+  deep_copy_cb env src p k i d h = (None, mk_call src p k i d :: h).
+Proof. exact deep_copy_cb_error. Qed.
+Print Assumptions C09_deep_copy_cb_error.
+
 (* ---- non-vacuity ---- *)
 Theorem C09_nonvacuous_equal :
   ex_a <> ex_b /\ jv_equal ex_a ex_b = true /\ jv_equal ex_b ex_c = true /\ jv_equal ex_a ex_c = true /\
@@ -199,3 +240,10 @@ Theorem C09_nonvacuous_history :
      [true; true; true; true; true; true; true; false]) /\
   jv_equal (fst (run_history h ex_a)) ex_b = true.
 Proof. exact ex_history. Qed.
+
+Theorem C09_nonvacuous_callback :
+  cb_never_fails ex_env /\
+  (exists h, deep_copy_cb_root ex_env ex_a = (Some ex_a, h) /\ zlen h = 6) /\
+  (exists h, deep_copy_cb_root ex_env_fail ex_a = (None, h) /\ zlen h = 4) /\
+  fst (deep_copy_cb_root (mk_env (fun _ _ => CbCreated) (fun _ c => match c_src c with JArr _ => true | _ => false end)) ex_a) = None.
+Proof. exact ex_cb. Qed.
